@@ -63,6 +63,10 @@ class NSStr(str):
     pass
 
 
+class NotPristine(AssertionError):
+    pass
+
+
 def tier_config(tier):
     if tier == 'thorough':
         return {'budget_s': 600, 'flavours': ['hooks'], 'run_timeout': 60, 'determinism_sample': 24}
@@ -93,8 +97,17 @@ def warmup():
     class IO:
         def progress(self, o):
             pass
+    found = []
     for i in range(6):
-        run_job({'i': i, 'seed': 4242, '_warm': True}, IO())
+        try:
+            out = run_job({'i': i, 'seed': 4242, '_warm': True}, IO())
+            found.extend(out.get('violations') or [])
+        except NotPristine as e:
+            # a fault-free warm-up history (register ... unregister everything) left the registry changed
+            found.append({'cls': 'not-reversible', 'site': 'warmup-history', 'msg': 'a fault-free history of register / unregister calls '
+                          'did not restore the registry: %s' % (str(e)[:1500],)})
+            break
+    return found
 
 
 class CAsub(U.CA):
@@ -292,7 +305,7 @@ def run_job(job, io):
     observe(model, types, instances, all_funcs, viol, 'initial', probes)
     if violations:
         # an initial mismatch would be a harness defect (registry not pristine) — surface it loudly
-        raise AssertionError('registry not pristine at run start: %r' % violations)
+        raise NotPristine('registry not pristine at run start: %r' % violations)
     rid = [1]
     sweep = job.get('sweep')
     n_steps = len(sweep) if sweep is not None else 1 + tape.draw(25, 'n-steps')
